@@ -42,3 +42,62 @@ Example C09_instance :
   fst (do_reads_g 4 2 0 0 0 (init_r (firstn 2 [FData [1;2;3;4]; FData [5;6;7;8]; FData [9]])) [3; 3; 9; 1]) =
   [([1;2;3], RNil); ([4;5;6], RNil); ([7;8], RErr); ([], RErr)].
 Proof. vm_compute. reflexivity. Qed.
+
+(* ---------- down to the bytes ---------- *)
+From KV Require Import Model.InBS Model.Header Model.Container Model.XXHash Proofs.BinCoderProofs Proofs.InBSProofs Proofs.ReadArrayProofs
+  Proofs.HeaderProofs Proofs.ContainerProofs Proofs.XXHashProofs Proofs.EosProofs Proofs.TruncProofs Proofs.EndToEnd Proofs.TruncEndToEnd.
+
+(* the input bit stream never makes bits up: ReadBits / ReadArray of more bits than the data holds panic, on every
+   path of the reader (aligned bulk copies, unaligned 64-bit and 256-bit loops, refills with any schedule) *)
+Theorem C09_reads_past_the_end_panic : forall s count, RA s -> total s < count ->
+  (exists s' e, read_array s count = (s', Pan e)) /\ (1 <= count <= 64 -> exists s' e, read_bits s count = (s', Pan e)).
+Proof.
+  intros s count HR Ht. split; [exact (read_array_eos s count HR Ht)|].
+  intros Hc. exact (read_bits_eos 66 s count (ra_a s HR) Hc Ht).
+Qed.
+Print Assumptions C09_reads_past_the_end_panic.
+
+(* a whole NONE / NONE stream cut anywhere before its end (any number of bytes missing): the parse is a header error, or
+   the configuration, some of the blocks - intact and in order - and then a failure; never the end marker *)
+Theorem C09_truncated_stream_is_never_complete : forall (hash : list N -> N) (evalid tvalid : N -> bool) c,
+  cfg_ok evalid tvalid c ->
+  (h_ck c = 1 -> forall l, hash l < 2 ^ 32) -> (h_ck c = 2 -> forall l, hash l < 2 ^ 64) ->
+  forall blocks nframes rbuf sched (k : nat),
+  Forall (blk_ok (h_bsize c)) blocks -> (length blocks < nframes)%nat -> 0 < rbuf -> rbuf mod 8 = 0 ->
+  (k < length (write_stream hash c blocks))%nat ->
+  let cut := firstn k (write_stream hash c blocks) in
+  parse_stream hash evalid tvalid nframes rbuf sched cut = None \/
+  exists j, (j <= length blocks)%nat /\
+    parse_stream hash evalid tvalid nframes rbuf sched cut = Some (norm_cfg c, map PData (firstn j blocks) ++ [PFail]).
+Proof. exact container_truncated. Qed.
+Print Assumptions C09_truncated_stream_is_never_complete.
+
+(* ... and up to the caller: whatever was written, however the truncated stream is delivered and read (buffer sizes,
+   short reads, job count, Read lengths), no Read reports end of stream, the bytes handed out are a prefix of the
+   data, and once the error has been reported it stays.  Checksums of the code (XXHash32/64). *)
+Theorem C09_truncated_stream_end_to_end : forall (evalid tvalid : N -> bool) c jr hr (data : list N) (ns : list N) nframes rbuf sched (k : nat),
+  cfg_ok evalid tvalid c -> h_bsize c <= 8388608 -> bytes_ok data -> (length data < nframes)%nat -> 0 < jr -> 0 < rbuf -> rbuf mod 8 = 0 ->
+  let B := h_bsize c in let hash := block_hash (h_ck c) in
+  let stream := write_stream hash c (chunks B data) in
+  (k < length stream)%nat ->
+  parse_stream hash evalid tvalid nframes rbuf sched (firstn k stream) = None \/
+  exists frames, parse_stream hash evalid tvalid nframes rbuf sched (firstn k stream) = Some (norm_cfg c, frames) /\
+    let out := fst (do_reads_g B jr hr 0 0 (init_r (map frame_of frames)) ns) in
+    ~ In REOF (map snd out) /\
+    (exists m, concat (map fst out) = firstn m (range_bytes B 0 0 data)) /\
+    (forall l1 x l2, out = l1 ++ x :: l2 -> snd x = RErr -> Forall (fun y => y = ([], RErr)) l2).
+Proof.
+  intros evalid tvalid c jr hr data ns nframes rbuf sched k Hc.
+  exact (truncated_end_to_end (block_hash (h_ck c)) evalid tvalid c jr hr data ns nframes rbuf sched k Hc
+           (block_hash_32 (h_ck c)) (block_hash_64 (h_ck c))).
+Qed.
+Print Assumptions C09_truncated_stream_end_to_end.
+
+Example C09_truncated_instance :
+  let hash := block_hash 1 in let c := mkH 1 0 0 1024 0 in
+  let blocks := [[1; 2; 3]; [255; 0; 254; 9; 8; 7; 6; 5; 4; 3; 2; 1; 0; 11; 12; 13; 14; 15; 16; 17]; [42]] in
+  let S := write_stream hash c blocks in
+  map (fun k => match parse_stream hash (fun _ => true) (fun _ => true) 10 16 [3; 1; 5] (firstn k S) with
+                | None => 0 | Some (_, fr) => N.of_nat (length fr) end) [0; 10; 19; 20; 27; 28; 40; 60; 66; 67]%nat
+  = [0; 0; 0; 1; 1; 1; 2; 3; 3; 4] /\ length S = 68%nat.
+Proof. vm_compute. split; reflexivity. Qed.
